@@ -54,6 +54,7 @@ struct MemWorld : World {
     // executes one pass; returns number of captured output bytes
     uint32_t one_pass(const Step &st, const OpDesc &op, int pass, uint32_t pattern, Ctx &c) {
         c.begin(&st, &op, pass, pattern, g_pre[pass]);
+        g_scrub_byte = (uint8_t)(0x11 + 0x6D * pattern);      // stale-stack reads differ between the two passes
         op.run(c);
         if (!c.ran) { fprintf(stderr, "memsim: op %s did not execute a window\n", op.name.c_str()); _exit(2); }
         uint32_t n = 0;
@@ -119,6 +120,7 @@ struct MemWorld : World {
                 c2.out.hash_into(h);
                 if (!rr.v.bad && c2.out.kind != 1 && !(op.flags & (F_BADINDEX | F_EXEMPT))) {
                     if (n0 != n1 || memcmp(g_cap[0], g_cap[1], n0) != 0 || o0.kind != c2.out.kind) {
+                        if (log) for (uint32_t q = 0; q < n0 && q < n1; ++q) if (g_cap[0][q] != g_cap[1][q]) fprintf(log, "  capture byte %u differs: %02x vs %02x\n", q, g_cap[0][q], g_cap[1][q]);
                         if (op.flags & F_UNJUDGED) { if (cnt) cnt->bump(std::string("unjudged-probe-hit/interference/") + op.family); }
                         else { char k[96]; snprintf(k, sizeof k, "interference/%s", op.family);
                             rr.v.set((int)si, k, op.name.c_str(), "op %s: result depends on bytes outside its operands (poison %u vs %u gave different outputs)", op.name.c_str(), pat0, pat1); }
